@@ -491,7 +491,13 @@ func (c *Ctx) ownRun() map[string]*simpleVerdict {
 				if e1 != "panic" {
 					dir = fmt.Sprintf("(%s).Equals(%s)", b, a)
 				}
-				note("equality", fmt.Sprintf("%s panics: %s%s; equality never fails, arrays with empty slots included", dir, w1, w2), "")
+				why := w1
+				if w1 != "" && w2 != "" && w1 != w2 {
+					why = w1 + " / the other way round: " + w2
+				} else if w1 == "" {
+					why = w2
+				}
+				note("equality", fmt.Sprintf("%s panics: %s; equality never fails (lists, also with empty slots, included)", dir, why), "")
 			case e1 == "opaque" || e2 == "opaque":
 				note("equality", "", fmt.Sprintf("Equals between %s and %s: %s%s", a, b, w1, w2))
 			case e1 == "sym" || e2 == "sym":
